@@ -161,4 +161,5 @@ def run(ctx):
     ctx.sample({"program": cases[7][2]})
     ctx.notes["programs"] = len(cases)
     ctx.notes["disagreements_checked"] = len(cases)
+    events, = protoc.drop_rejected(ctx, events)
     ctx.validate("Trace_Plugin", events, shard=30, header=c03.plugin_header(events))
